@@ -5,6 +5,7 @@ import (
 	"encoding/json"
 	"fmt"
 	"hash/fnv"
+	"io"
 	"os"
 	"sort"
 	"strings"
@@ -24,11 +25,13 @@ type SeqCase struct {
 	World             WorldSpec `json:"world"`
 	Keys              []string  `json:"keys"`
 	Ops               []Op      `json:"ops"`
-	ReadBack          string    `json:"readback"`              // all: every open actor reads every key + GetKeys after each data step; auto: autocommit only; none
-	Walk              string    `json:"walk,omitempty"`        // "": none; "shape": C17 layout walk after every step; "final": C14 exact-content walk at the end
-	Client            string    `json:"client,omitempty"`      // inline (default) | simgrpc
-	BadgerFailUpdates []uint64  `json:"badger_fail,omitempty"` // indices (per world, 1-based) of Badger updates that fail before applying
-	FaultOps          []int     `json:"fault_ops,omitempty"`   // indices of ops whose Badger updates fail (resolved at run time)
+	ReadBack          string    `json:"readback"`                 // all: every open actor reads every key + GetKeys after each data step; auto: autocommit only; none
+	Walk              string    `json:"walk,omitempty"`           // "": none; "shape": C17 layout walk after every step; "final": C14 exact-content walk at the end
+	Client            string    `json:"client,omitempty"`         // inline (default) | simgrpc
+	BadgerFailUpdates []uint64  `json:"badger_fail,omitempty"`    // indices (per world, 1-based) of Badger updates that fail before applying
+	FaultOps          []int     `json:"fault_ops,omitempty"`      // indices of ops whose Badger updates fail (resolved at run time)
+	MkdirFaultAt      []int     `json:"mkdir_fault_at,omitempty"` // at these op indices the next directory creation is armed to fail (ENOSPC); it fires inside whichever later write needs a new directory
+	FaultLate         bool      `json:"fault_late,omitempty"`     // those updates fail at their commit step, after their function has run, instead of before it
 	// process-boundary segments: the world lives in Dir (kept between processes); operations before
 	// From only advance the model (earlier processes executed them), operations from To on are left
 	// to later processes
@@ -59,9 +62,22 @@ type seqRun struct {
 	ended       map[int]bool
 	dirSeenFull map[string]bool
 	dirRegained map[string]int
+	dirQuiesced map[string]bool // the world has been at exact quiescence since the directory regained room
 	writesSince map[string]int
 	missLog     map[string]float64 // per regained directory: ln of the chance that a fair choice missed it so far
 	nontrivial  bool
+	readers     map[int]*heldReader
+}
+
+// heldReader is a content reader that was handed out by GetReader and is read only later, after
+// other operations (overwrites, deletes, collector runs, the end of its transaction) have
+// happened: it must still deliver the complete content it was opened on.
+type heldReader struct {
+	rc       io.ReadCloser
+	ans      []refmodel.Val
+	key      string
+	actor    string
+	openedAt int
 }
 
 func actorName(m *refmodel.Model, tx int) string {
@@ -141,7 +157,55 @@ func (s *seqRun) step(i int, o Op) bool {
 		simrt.Background(o.N)
 	case "drain":
 		s.w.Drain()
+	case "ropen":
+		st, ok := s.a.store(o.tx())
+		if !ok {
+			break
+		}
+		an := actorName(s.m, o.tx())
+		rc, err := st.GetReader(s.w.Ctx, o.Key)
+		ans, want := s.m.Get(o.tx(), o.Key)
+		if err != nil || want != refmodel.OK {
+			r := OpResult{Err: err, Class: classOf(err)}
+			if err == nil {
+				r.Data, r.Err = readAllClose(rc)
+				r.Class = classOf(r.Err)
+			}
+			if cl, d := compareGet(s.m, o.tx(), o.Key, r, s.idx); cl != "" {
+				s.fail(cl, fmt.Sprintf("op=getr,actor=%s", an), fmt.Sprintf("step %d (%s by %s): %s", i, o, an, d))
+				return false
+			}
+			break
+		}
+		if s.readers == nil {
+			s.readers = map[int]*heldReader{}
+		}
+		s.readers[o.N] = &heldReader{rc: rc, ans: ans, key: o.Key, actor: an, openedAt: i}
+		s.probes["reader-held-open"]++
+	case "rread":
+		hr := s.readers[o.N]
+		if hr == nil {
+			break
+		}
+		delete(s.readers, o.N)
+		b, err := readAllClose(hr.rc)
+		okv := false
+		for _, a := range hr.ans {
+			if !a.Deleted() && err == nil && len(b) == a.Size && bytes.Equal(b, contentOf(a)) {
+				okv = true
+			}
+		}
+		if !okv {
+			got := s.idx.describe(b)
+			if err != nil {
+				got += fmt.Sprintf(" and the error %v", err)
+			}
+			s.fail("partial-or-mixed-content", "held-reader,actor="+hr.actor, fmt.Sprintf("step %d: the reader of %q handed out to %s at step %d (then: write #%d, %d bytes) delivered %s when it was read after %d further steps", i, hr.key, hr.actor, hr.openedAt, hr.ans[0].ID, hr.ans[0].Size, got, i-hr.openedAt))
+			return false
+		}
+		s.probes["reader-read-after-later-operations"]++
 	case "restart":
+		s.w.Disk.FailMkdirs = 0 // (an armed directory-creation fault is not carried into Open)
 		// a process boundary inside one process: close, the sequence counter of a fresh process, open
 		if err := s.w.Close(); err != nil {
 			s.fail("error-class", "close", fmt.Sprintf("step %d: Close failed: %v", i, err))
@@ -156,6 +220,7 @@ func (s *seqRun) step(i int, o Op) bool {
 		s.m.Reopen()
 		s.probes["restart"]++
 	case "reopen":
+		s.w.Disk.FailMkdirs = 0
 		if err := s.w.Close(); err != nil {
 			s.fail("error-class", "close", fmt.Sprintf("step %d: Close failed: %v", i, err))
 			return false
@@ -168,15 +233,27 @@ func (s *seqRun) step(i int, o Op) bool {
 		s.m.Reopen()
 		s.probes["reopen"]++
 	default:
-		before := simrt.Mutations()
-		_ = before
+		for _, at := range s.c.MkdirFaultAt {
+			if at == i {
+				s.w.Disk.FailMkdirs++
+			}
+		}
+		mkdirErrs := s.w.Disk.Stats.MkdirErrs
 		r := s.a.apply(s.w.Ctx, o)
 		an := actorName(s.m, o.tx())
+		mkdirFailed := s.w.Disk.Stats.MkdirErrs > mkdirErrs
 		if o.Ctx == "dead" && r.Err != nil && (r.Class == "other" || r.Class == "ErrUnknown") && !s.faultAt(i) {
 			// the call was made with a context that was already cancelled and was refused (the
 			// external client fails fast): it must then have had no effect, which the read-backs
 			// after this step and the rest of the history check against the unchanged model
 			s.faults["dead-context-call-refused"]++
+		} else if mkdirFailed && (o.K == "set" || o.K == "setr" || o.K == "create") && r.Class == "other" {
+			// the directory this write needed could not be created: the write fails and is not
+			// applied; the writes after it must work again
+			s.faults["mkdir-failed-in-write"]++
+			if o.ID != 0 {
+				s.idx.add(refmodel.Val{ID: o.ID, Size: o.Size})
+			}
 		} else if o.K == "commit" && r.Class == "other" && s.faultAt(i) {
 			// injected storage failure: the commit must fail as a whole
 			s.m.CommitFailed(o.tx())
@@ -216,7 +293,7 @@ func (s *seqRun) step(i int, o Op) bool {
 		return false
 	}
 	switch o.K {
-	case "bg", "gctimer":
+	case "bg", "gctimer", "ropen", "rread":
 	default:
 		s.readBack(o, i)
 	}
@@ -243,7 +320,7 @@ func (s *seqRun) faultAt(i int) bool {
 
 func seqExec(c SeqCase, choices []int32) RunOut {
 	s := &seqRun{c: c, m: refmodel.New(), idx: &valueIndex{}, states: map[uint64]bool{}, probes: map[string]uint64{},
-		faults: map[string]uint64{}, dirSeenFull: map[string]bool{}, dirRegained: map[string]int{}, writesSince: map[string]int{}, missLog: map[string]float64{}}
+		faults: map[string]uint64{}, dirSeenFull: map[string]bool{}, dirRegained: map[string]int{}, dirQuiesced: map[string]bool{}, writesSince: map[string]int{}, missLog: map[string]float64{}}
 	cfg := c.Sched.config(choices)
 	if cfg.Strategy == "" || cfg.Strategy == "uniform" {
 		cfg.Strategy = "seqbg"
@@ -306,13 +383,20 @@ func seqExec(c SeqCase, choices []int32) RunOut {
 				if f == i {
 					// every Badger update of this op fails
 					for k := uint64(1); k <= 8; k++ {
-						w.Badger.FailUpdateAt[w.Badger.Updates+k] = true
+						if c.FaultLate {
+							w.Badger.FailCommitAt[w.Badger.Updates+k] = true
+						} else {
+							w.Badger.FailUpdateAt[w.Badger.Updates+k] = true
+						}
 					}
 				}
 			}
 			ok := s.step(i, o)
 			for k := range w.Badger.FailUpdateAt {
 				delete(w.Badger.FailUpdateAt, k)
+			}
+			for k := range w.Badger.FailCommitAt {
+				delete(w.Badger.FailCommitAt, k)
 			}
 			if !ok {
 				break
@@ -325,6 +409,9 @@ func seqExec(c SeqCase, choices []int32) RunOut {
 			simrt.Stop() // the world is not wound down after a violation
 		}
 		// wind down: end transactions, close
+		for _, hr := range s.readers {
+			hr.rc.Close()
+		}
 		for _, id := range s.m.OpenTxs() {
 			s.a.txs[id].Rollback(w.Ctx)
 		}
